@@ -191,6 +191,14 @@ def check(ctx):
             b = bytes.fromhex(t[1]) if t[1] != "-" else b""
             cross += ["cls 1 " + t[1], "mp 1 " + t[1]] + (["rssi " + t[1]] if len(b) >= 4 and int.from_bytes(b[2:4], "little") <= len(b) else [])
     fw.run_suite(ctx, exe, "S-safe/corpus", cl + cross, "parse")
+    # ---- coverage-guided corpus (built on the clean tree by libFuzzer) and structure-blind mutants of it, every entry point
+    ci = fw.corpus_inputs(ctx, random.Random(ctx.seed + 79))
+    cl2 = []
+    for rt_, b_ in ci:
+        cl2 += all_ops(b_, rt_)
+        if len(b_) <= 300:
+            cl2 += ["it " + hx(b_), "ie rsn " + hx(b_), "ie wpa " + hx(b_)]
+    fw.run_suite(ctx, exe, "S-safe/fuzz-corpus", cl2, "parse of a corpus input or a mutant of one")
     # ---- random strings
     rl = []
     for _ in range(400 if not thorough else 6000):
